@@ -29,6 +29,11 @@ func TestVerifC06(t *testing.T) {
 			roots = append(roots, x)
 		}
 	}
+	if sh, _ := vh.Shard(); sh == 0 {
+		if srv, err := vServer(vBundledRoot); err == nil {
+			c06NonZeroStart(rep, srv)
+		}
+	}
 	job := 0
 	for _, root := range roots {
 		for _, ap := range vAssetPaths(root) {
@@ -85,6 +90,77 @@ func TestVerifC06(t *testing.T) {
 							}
 							c06Walk(rep, srv, a, ap, mpdName, mode, p, tsbd, quick)
 						}
+					}
+				}
+			}
+		}
+	}
+}
+
+// c06NonZeroStart: with availabilityStartTime != 0 the statement still holds: every segment the single-period MPD
+// lists (all of them start at or after the start of the first period, which contains the window start) appears in
+// exactly one period of the multi-period MPD, under the same media time.
+func c06NonZeroStart(rep *vh.Report, srv *Server) {
+	for _, mode := range []string{"tltime", "tlnr"} {
+		for _, p := range []int{60, 120} {
+			for _, start := range []int64{600, 1000, 3600} {
+				for _, off := range []int64{90_500, 150_500} {
+					t := start*1000 + off
+					base := []string{"segtimeline_1"}
+					if mode == "tlnr" {
+						base = []string{"segtimelinenr_1"}
+					}
+					base = append(base, fmt.Sprintf("start_%d", start))
+					mURL := fmt.Sprintf("%s/testpic_2s/Manifest.mpd?nowMS=%d", vCfgPrefix(append(append([]string{}, base...), fmt.Sprintf("periods_%d", p))...), t)
+					sURL := fmt.Sprintf("%s/testpic_2s/Manifest.mpd?nowMS=%d", vCfgPrefix(base...), t)
+					mr, sr := vGet(srv, mURL), vGet(srv, sURL)
+					rep.AddExecs(2)
+					rep.AddStates(1)
+					rep.Hit("C06.b")
+					if mr.Code != 200 || sr.Code != 200 {
+						continue // refusing the combination is not judged here
+					}
+					mm, err1 := vref.ParseMPD(mr.Body)
+					sm, err2 := vref.ParseMPD(sr.Body)
+					if err1 != nil || err2 != nil {
+						continue
+					}
+					ss, err1 := sm.TimelineSegs()
+					ms, err2 := mm.TimelineSegs()
+					if err1 != nil || err2 != nil {
+						continue
+					}
+					type key struct {
+						rep  string
+						time uint64
+					}
+					n := map[key]int{}
+					for _, x := range ms {
+						n[key{x.RepID, x.Time}]++
+					}
+					// segments that start before the first period (the single-period MPD may list the one that contains the window start)
+					firstMS := int64(-1)
+					for _, x := range ms {
+						if firstMS < 0 || x.PeriodStartMS < firstMS {
+							firstMS = x.PeriodStartMS
+						}
+					}
+					lost := 0
+					for _, x := range ss {
+						if int64(x.Time)*1000 < firstMS*int64(x.TS) {
+							continue
+						}
+						if n[key{x.RepID, x.Time}] != 1 {
+							lost++
+						}
+					}
+					if firstMS > (t - start*1000 - 60_000) {
+						// the first period must contain the start of the time-shift window (60 s by default)
+						rep.Violate("C06.b", "nonzero-start:first-period-after-window-start:"+mode, fmt.Sprintf("start_%d periods_%d t=%d: the first period with segments starts at media time %d ms, the window starts at %d ms", start, p, t, firstMS, t-start*1000-60_000), map[string]any{"multi_url": mURL})
+					}
+					if lost > 0 {
+						rep.Violate("C06.b", "nonzero-start:segments-not-in-one-period:"+mode, fmt.Sprintf("start_%d periods_%d t=%d: %d of the %d segments of the single-period MPD are not in exactly one period of the multi-period MPD (which lists %d)", start, p, t, lost, len(ss), len(ms)),
+							map[string]any{"multi_url": mURL, "single_url": sURL})
 					}
 				}
 			}
